@@ -101,6 +101,9 @@ def oracle(case, rec):
                             "matrix" if isinstance(case["weights"][0], list) else "per-state"),
               "target_param:" + ("subset" if case["target_param"] else "all"))
     shared = {} if case.get("twin") else None
+    if p >= 2 and n == p:
+        rec.label("data:square-matrix" + ("+matrix-weights-or-spread" if (isinstance(case["weights"], list) and isinstance(case["weights"][0], list))
+                                          or (isinstance(case["spread"], list) and isinstance(case["spread"][0], list)) else ""))
     model, obj = call(key + "/construct", case, lossgen.build, case, y, None, shared)
     twin = None
     if shared is not None:
